@@ -263,6 +263,12 @@ func (p *Proxy) handleLoop(conn net.Conn) {
 			log.Debugf("martian: closing connection: %v", conn.RemoteAddr())
 			return
 		}
+		if s.Hijacked() {
+			// The connection now belongs to the modifier that hijacked it: do not
+			// read from it again, and release it now that the modifier is done.
+			log.Debugf("martian: closing hijacked connection: %v", conn.RemoteAddr())
+			return
+		}
 	}
 }
 
